@@ -16,7 +16,9 @@ Record world := { wire : list N; fds_delivered : list N }.
 Definition world0 : world := {| wire := []; fds_delivered := [] |}.
 
 (* One sendmsg call as decided by the kernel: it takes at most [k] of the offered bytes (KAccept k),
-   or none and fails with EAGAIN/EWOULDBLOCK (non-blocking socket, or SO_SNDTIMEO elapsed). *)
+   or none and fails: EAGAIN/EWOULDBLOCK (non-blocking socket, or SO_SNDTIMEO elapsed), and equally any
+   other error return of sendmsg (EBADF for a closed attached descriptor, EPIPE): nothing was accepted,
+   write_once returns Err and leaves the state as it was. *)
 Inductive kdec := KAccept (k : N) | KAgain.
 
 (* sendmsg(fd, iov, [ScmRights(rights)], flags): the accepted bytes are the first min(k, len iov)
